@@ -61,11 +61,11 @@ F == st[1].t
 (* ---- theorems: the Impl layer refines the Abs layer on the documented language ---- *)
 Refines ==
   Complete =>
-    LET i == ImplDen(IEval(F, FALSE)) IN
+    LET i == ImplDen(IEval(F, TermBySet)) IN
       SameDen(i, Den(F)) \/ OrderSensitive(F) \/ LateLiteral(F) \/ MulEqualModels(F)
 \* the deviation class is not vacuous and not over-wide: outside it and outside order-sensitive
 \* inputs the code's algorithm never raises
-NoExcOutside == Complete => (ImplDen(IEval(F, FALSE)).exc => (LateLiteral(F) \/ OrderSensitive(F)))
+NoExcOutside == Complete => (ImplDen(IEval(F, TermBySet)).exc => (LateLiteral(F) \/ OrderSensitive(F)))
 
 (* ---- theorems about the Abs layer ---- *)
 RECURSIVE Subs(_)
@@ -105,15 +105,15 @@ XSite(e) ==
   IF e[1] \in {"op", "grp"}
   THEN LET l == IF e[1] = "op" THEN e[3] ELSE e[2]
            r == IF e[1] = "op" THEN e[4] ELSE e[3]
-           lv == IEval(l, FALSE)
-           rv == IEval(r, FALSE)
+           lv == IEval(l, TermBySet)
+           rv == IEval(r, TermBySet)
        IN IF lv.cls = "X" THEN XSite(l) ELSE IF rv.cls = "X" THEN XSite(r)
           ELSE <<IF e[1] = "op" THEN e[2] ELSE "|", lv.cls, rv.cls>>
-  ELSE IF e[1] = "pow" THEN (IF IEval(e[2], FALSE).cls = "X" THEN XSite(e[2]) ELSE <<"**", IEval(e[2], FALSE).cls, "n">>)
+  ELSE IF e[1] = "pow" THEN (IF IEval(e[2], TermBySet).cls = "X" THEN XSite(e[2]) ELSE <<"**", IEval(e[2], TermBySet).cls, "n">>)
   ELSE <<"?", "?", "?">>
 Case ==
   LET d == Den(F)
-      i == ImplDen(IEval(F, FALSE))
+      i == ImplDen(IEval(F, TermBySet))
   IN [f |-> F, icpt |-> d.icpt, terms |-> d.terms, groups |-> d.groups,
       order_sensitive |-> OrderSensitive(F), late_literal |-> LateLiteral(F), mul_equal |-> MulEqualModels(F),
       impl_exc |-> i.exc, impl_same |-> SameDen(i, d),
